@@ -1,0 +1,44 @@
+//go:build verif
+
+package server
+
+import (
+	"sort"
+
+	lua "github.com/yuin/gopher-lua"
+)
+
+// VerifLuaReachable builds a script state exactly as the pool does and returns
+// every name reachable from its globals ("a.b.c:type"), following tables and
+// metatables, so that the harness can compare it with the allow-list.
+func VerifLuaReachable() []string {
+	pl := &lStatePool{}
+	L := pl.New()
+	defer L.Close()
+	seen := map[*lua.LTable]bool{}
+	var out []string
+	var walk func(prefix string, t *lua.LTable, depth int)
+	walk = func(prefix string, t *lua.LTable, depth int) {
+		if t == nil || seen[t] || depth > 6 {
+			return
+		}
+		seen[t] = true
+		t.ForEach(func(k, v lua.LValue) {
+			name := prefix + k.String()
+			out = append(out, name+":"+v.Type().String())
+			if vt, ok := v.(*lua.LTable); ok {
+				walk(name+".", vt, depth+1)
+			}
+		})
+		if mt, ok := L.GetMetatable(t).(*lua.LTable); ok {
+			walk(prefix+"<metatable>.", mt, depth+1)
+		}
+	}
+	walk("", L.Get(lua.GlobalsIndex).(*lua.LTable), 0)
+	// the string metatable is reachable from any string value
+	if mt, ok := L.GetMetatable(lua.LString("")).(*lua.LTable); ok {
+		walk("<string-metatable>.", mt, 1)
+	}
+	sort.Strings(out)
+	return out
+}
